@@ -1,7 +1,7 @@
 META = dict(
     level='exploration',
     rule=('cases = (form, pointee type, base, n type, n value, operand wrapper, pointer wrapper); forms p+n p-n p+=n p-=n ++p p++ --p p-- p[n] &p[n], and n+p (which the library defines as p+n); '
-          'pointees char short int long longlong double int* long* int[4] long[3] long[2][3] char[3][2] int*[2][2] struct; bases = every element-aligned address of a 64 KiB mbox region '
+          'pointees char short int long longlong double int* long* int[4] long[3] long[2][3] char[3][2] int*[2][2] const long[4] const char[5] struct; bases = every element-aligned address of a 64 KiB mbox region '
           '(lp32 ABI, 16-bit pointers) plus unaligned ends and null; n over 10 integer types with values {-4..4, n that put the exact target 0,+-1,+-2 '
           'elements around region start/end, type extrema, floor/ceil(2^k/s)+-1 for k=16,31,32,63,64}; plain operands on every base, tainted / '
           'tainted_volatile operands and tainted_volatile pointers on boundary bases (all bases in thorough); mask and registry membership modes; '
@@ -12,7 +12,7 @@ META = dict(
                  'post-increment/decrement of a tainted_volatile pointer and unary & of a non-const struct tainted_volatile do not compile and are absent'],
 )
 
-GROUPS = [('a', 'char, short, long'), ('b', 'int, long long, double'), ('c', 'int*, long*, VS'), ('d', 'int[4], long[3]'), ('e', 'long_2x3, char_3x2, intp_2x2')]
+GROUPS = [('a', 'char, short, long'), ('b', 'int, long long, double'), ('c', 'int*, long*, VS'), ('d', 'int[4], long[3]'), ('e', 'long_2x3, char_3x2, intp_2x2'), ('f', 'clong_4, cchar_5')]
 
 
 def run(ctx):
